@@ -28,6 +28,8 @@ from hpstatic.weights import Weigher, ANY, NA, UNK, ZERO
 from .theories import all_configs, run_config, sink_calls, IFQ, TH
 from .common import THEORY
 
+MUTATION_TARGETS = {'holopy/scattering/imageformation.py': ['_transform_to_desired_coordinates', '_get_field_from'], 'holopy/scattering/theory/mielens.py': ['raw_fields'], 'holopy/scattering/theory/lens.py': ['raw_fields', '_integrand_prefactor', '_integrand_prll', '_integrand_perp', '_transform_integral_from_lr_to_xyz', 'pts_wts_for_phi_integrals'], 'holopy/scattering/theory/mielensfunctions.py': ['_calculate_small_krho_scattered_field'], 'holopy/scattering/theory/multisphere.py': ['_scsmfo_setup']}
+
 LEVEL = 'other'
 META = dict(
     claimed=True,
